@@ -506,8 +506,38 @@ GENS = {
 }
 
 
-def gen_string(rng, kind):
-    s = GENS[kind](rng)
+def gen_clean(rng, kind, inp=None):
+    """a string the input is meant to accept (the mostly-valid part of the stream)"""
+    if kind == 'int':
+        return rng.choice(['', '', '-']) + str(rng.randint(0, 10 ** rng.choice([1, 3, 6, 12])))
+    if kind in ('float', 'halfway'):
+        return rng.choice(['', '', '-']) + f'{rng.randint(0, 10 ** rng.choice([2, 5, 9])) / 100:.{rng.choice([0, 1, 2, 2, 3])}f}'
+    if kind == 'bool':
+        w = rng.choice(TEN_WORDS)
+        return rand_case(rng, w) if rng.random() < 0.4 else w
+    if kind == 'ssn':
+        d = digits(rng, 9, 9)
+        return rng.choice([d, f'{d[:3]}-{d[3:5]}-{d[5:]}'])
+    if kind == 'enum':
+        e = inp.enum if inp is not None and type(inp) is hi.EnumInput else rng.choice(ENUMS)
+        return rng.choice(list(e.__members__))
+    if kind == 'routing':
+        return rng.choice(['%02d' % k for k in list(range(1, 13)) + list(range(21, 33))]) + digits(rng, 7, 7)
+    if kind == 'account':
+        return ''.join(rng.choice('0123456789ABCXYZabcxyz-') for _ in range(rng.randint(1, 17)))
+    if kind == 'name':
+        return rng.choice(['Bob Smith', 'Robert Smith', 'robert Smith'])
+    return rng.choice(['John Smith', 'x', '123 Main St.', 'Ünï cödé', ''])
+
+
+def gen_string(rng, kind, inp=None):
+    if rng.random() < 0.45:
+        s = gen_clean(rng, kind, inp)
+        return pad(rng, s) if rng.random() < 0.3 else s
+    if kind == 'enum' and inp is not None and type(inp) is hi.EnumInput:
+        s = gen_enum_string(rng, inp.enum)
+    else:
+        s = GENS[kind](rng)
     r = rng.random()
     if r < 0.35:
         s = pad(rng, s)
@@ -645,9 +675,22 @@ class Collector:
         self.post.append(post)
 
 
+def pick_inputs(rng, inputs_list, k):
+    """k inputs, every class equally likely"""
+    by_type = {}
+    for i in inputs_list:
+        by_type.setdefault(type(i), []).append(i)
+    chosen = {}
+    for _ in range(k):
+        i = rng.choice(by_type[rng.choice(list(by_type))])
+        chosen[i.name()] = i
+    return list(chosen.values())
+
+
 def add_store_batch(col, rng, inputs_list, tmpdir, k):
     """one INI file with many keys (file path) and one in-memory store (`__setitem__` path)"""
     by_key = {i.name(): i for i in inputs_list}
+    inputs_list = pick_inputs(rng, inputs_list, 8)
     # ---- file path
     entries = []
     lines = ['[f]']
@@ -656,7 +699,7 @@ def add_store_batch(col, rng, inputs_list, tmpdir, k):
         if mode < 0.15:
             entries.append((inp, None))
             continue
-        s = gen_string(rng, rng.choice(natural_kinds(inp)))
+        s = gen_string(rng, rng.choice(natural_kinds(inp)), inp)
         if not ini_safe(s):
             s = s.replace('\n', ' ').replace('\r', ' ').replace('\x00', '0')
         entries.append((inp, s))
@@ -679,7 +722,7 @@ def add_store_batch(col, rng, inputs_list, tmpdir, k):
         if rng.random() < 0.1:
             col.add('getitem.set', f'getitem {enc_spec(inp)} -', classify_store(store2, key))
             continue
-        s = gen_string(rng, rng.choice(natural_kinds(inp)))
+        s = gen_string(rng, rng.choice(natural_kinds(inp)), inp)
         if has_surrogate(s):
             continue
         store2[key] = s
@@ -716,7 +759,9 @@ def build(seed, n, thorough):
         if numspace != numspace_f:
             numspace = f'int/float disagree {numspace}/{numspace_f}'
         real = f'{ch.isspace()!r} {numspace!r} {d if ok else "-"} {int(df) if okf else "-"} ' + \
-            ','.join(str(ord(x)) for x in ch.lower())
+            ','.join(str(ord(x)) for x in ch.lower()) + ' ' + \
+            ','.join(str(ord(x)) for x in (ch + 'Σ').lower()) + ' ' + \
+            ','.join(str(ord(x)) for x in ('AΣ' + ch + 'A').lower())
         col.add('chr', f'chr {c}', real)
     # --- main loop
     target = len(col.ops) + n if thorough else max(n, len(col.ops))
@@ -727,7 +772,7 @@ def build(seed, n, thorough):
             rng = random.Random(f'{seed}/inputs/{k}')
             k += 1
             r = rng.random()
-            if r < 0.04:
+            if r < 0.03:
                 add_store_batch(col, rng, inputs_list, tmpdir, k)
                 continue
             if r < 0.16:
@@ -777,20 +822,15 @@ def build(seed, n, thorough):
                 col.add('intstr', f'intstr {enc_int(i)}', enc_text(v) if ok else enc_exc(v))
                 continue
             # input classes
-            inp = rng.choice(inputs_list)
-            rr = rng.random()
-            if rr < 0.8:
+            inp = pick_inputs(rng, inputs_list, 1)[0]
+            if rng.random() < 0.85:
                 kind = rng.choice(natural_kinds(inp))
             else:
                 kind = rng.choice(list(GENS))
-            if kind == 'enum' and type(inp) is hi.EnumInput and rng.random() < 0.8:
-                s = gen_enum_string(rng, inp.enum)
-                if rng.random() < 0.35:
-                    s = pad(rng, s)
-            elif rng.random() < 0.01:
+            if rng.random() < 0.01:
                 s = gen_long_string(rng)
             else:
-                s = gen_string(rng, kind)
+                s = gen_string(rng, kind, inp)
             if has_surrogate(s):
                 continue
             spec = enc_spec(inp)
